@@ -106,6 +106,19 @@ class Servlet(ABC):
     def children(self) -> list:
         raise NotImplementedError
 
+    @staticmethod
+    def _call_all(funcs) -> BaseException | None:
+        # Call every function although some may raise, e.g. `join` of a worker that
+        # has died re-raises its error. Return the first error.
+        err = None
+        for f in funcs:
+            try:
+                f()
+            except BaseException as e:
+                if err is None:
+                    err = e
+        return err
+
     def _stop_started_workers(self, q_in) -> None:
         # A worker has failed to initialize. Stop its peers that have already
         # started, so that a failed `start` leaves nothing running.
@@ -260,10 +273,12 @@ class ProcessServlet(Servlet):
         """Stop the workers."""
         assert self._started
         self._q_in.put(None)
-        for w in self._workers:
-            w.join()
+        err = self._call_all(w.join for w in self._workers)
         self._workers = []
         self._started = False
+        if err is not None:
+            # A worker has died of an error; all workers have been joined nevertheless.
+            raise err
 
     @property
     def input_queue_type(self):
@@ -384,10 +399,12 @@ class ThreadServlet(Servlet):
         """Stop the worker threads."""
         assert self._started
         self._q_in.put(None)
-        for w in self._workers:
-            w.join()
+        err = self._call_all(w.join for w in self._workers)
         self._workers = []
         self._started = False
+        if err is not None:
+            # A worker has died of an error; all workers have been joined nevertheless.
+            raise err
 
     @property
     def input_queue_type(self):
@@ -474,10 +491,11 @@ class SequentialServlet(Servlet):
     def stop(self):
         """Stop the member servlets."""
         assert self._started
-        for s in self._servlets:
-            s.stop()
+        err = self._call_all(s.stop for s in self._servlets)
         self._qs = []
         self._started = False
+        if err is not None:
+            raise err
 
     @property
     def workers(self):
@@ -690,12 +708,13 @@ class EnsembleServlet(Servlet):
         # abandoned requests) to a process member that has already stopped.
         self._qin.put(None)
         self._threads[1].join()
-        for s in self._servlets:
-            s.stop()
+        err = self._call_all(s.stop for s in self._servlets)
         self._members_stopped.set()
         self._threads[0].join()
         self._reset()
         self._started = False
+        if err is not None:
+            raise err
 
     @property
     def workers(self):
@@ -772,10 +791,11 @@ class SwitchServlet(Servlet):
         # input queues; see `EnsembleServlet.stop`.
         self._qin.put(None)
         self._thread_enqueue.join()
-        for s in self._servlets:
-            s.stop()
+        err = self._call_all(s.stop for s in self._servlets)
         self._reset()
         self._started = False
+        if err is not None:
+            raise err
 
     @abstractmethod
     def switch(self, x) -> int:
